@@ -37,7 +37,7 @@ def run(tier, seed, replay=None):
     rep.proof = lib.compile_props(PID)
     rng = lib.rng_for(seed, PID)
     g = cc.Gen(rng)
-    n = 300 if tier == 'quick' else 6000
+    n = 300 if tier == 'quick' else 36000
     cases = []
     for c in range(n):
         prog = g.program(rng.choice([2, 3, 3, 4]))
